@@ -69,7 +69,19 @@ class Index:
         self.files[module] = p
         self._text[module] = text
         self._index(module, tree, text, p)
+        # index the repository modules this one imports (class/field knowledge)
+        for target in list(self.imports.get(module, {}).values()):
+            if not target.startswith("mxlpy"):
+                continue
+            for cand in (target, target.rpartition(".")[0]):
+                if cand and cand not in self.modules and self._exists(cand):
+                    self.load(cand)
+                    break
         return tree
+
+    def _exists(self, module: str) -> bool:
+        rel = module.replace(".", "/")
+        return (REPO_SRC / (rel + ".py")).exists() or (REPO_SRC / rel / "__init__.py").exists()
 
     def _index(self, module: str, tree: ast.Module, text: str, path: Path) -> None:
         imps: dict[str, str] = {}
